@@ -235,7 +235,29 @@ fn orchestrate(id: &str, tier: &str, seed: u64) -> Result<ShardOut, String> {
     Ok(merged)
 }
 
+/// A logger that formats every record and throws it away: with it installed at `Trace`, the
+/// arguments of every log statement in the code under test are evaluated (a log statement that
+/// panics or fails while formatting is then reached), as under `RUST_LOG=trace`.
+struct FormatOnlyLogger;
+
+impl log::Log for FormatOnlyLogger {
+    fn enabled(&self, _: &log::Metadata) -> bool {
+        true
+    }
+    fn log(&self, record: &log::Record) {
+        use std::fmt::Write;
+        let mut sink = String::new();
+        let _ = write!(sink, "{}", record.args());
+        std::hint::black_box(&sink);
+    }
+    fn flush(&self) {}
+}
+
 fn main() {
+    if std::env::var("VERIF_NO_LOGGER").is_err() {
+        let _ = log::set_boxed_logger(Box::new(FormatOnlyLogger));
+        log::set_max_level(log::LevelFilter::Trace);
+    }
     let args: Vec<String> = std::env::args().collect();
     if args.len() < 2 {
         usage();
